@@ -95,6 +95,11 @@ for p in props:
     pid = p['id']
     if pid in CLAIMED:
         tech, text, note, ref = CLAIMED[pid]
+        tech += "; thorough tier adds a coverage-guided libFuzzer campaign whose input is the generator's choice string (all oracles inside the target)"
+        if pid in ("C01", "C04", "C12", "C17"):
+            tech += " and a differential stage on a gcc/clang-built corpus (" + {"C01": "robustness on real sections and truncations", "C04": "line rows vs llvm-dwarfdump", "C12": "conversion of real units and frame sections preserves the semantic dump", "C17": "aranges vs llvm-dwarfdump, package unit vs standalone .dwo unit"}[pid] + ")"
+        if pid == "C01":
+            tech += " and a byte-level libFuzzer target over raw section sets"
         checks.append({
             "property_id": pid,
             "quick_cmd": f"./check {pid} quick",
